@@ -55,7 +55,8 @@ class C03(Spec):
             if name == 'interleaved-nokeep':
                 d.update(policy='interleaved', keep=0)
             yield d
-        for g in range(1, n + 2):
+        yield {'policy': 'blockedrandom', 'keep': 0, 'gsize': 0, 'seed': 11}     # inherited option, non-default
+        for g in list(range(1, n + 2)) + [n + 5]:
             yield {'policy': 'grouped', 'keep': 1, 'gsize': g, 'seed': 0}
 
     def cases(self, rng, tier):
@@ -78,6 +79,32 @@ class C03(Spec):
             c['stims'] = QC.rand_stims(rng, nst, max_len=7, max_trials=rng.choice([2, 4, 6]))
             N = drain(c)
             c['ops'] = [['pop', n] for n in rng.chunks(N, max_parts=rng.choice([1, 3, 10]))] + [['pop', 6], ['pop', 1]]
+            if _ % 2:
+                # the same queue said differently: constructor routes, extend() broadcasting, argument types,
+                # metadata, explicit durations, a clone, a bystander queue on the same sources, a meddling caller
+                for st in c['stims']:
+                    if rng.random() < 0.2:
+                        st['xdur'] = rng.choice([-1, 1, 3, 25])
+                QC.spell(rng, c, finite_delays=True, p=1.0)
+                c['ops'] = [['pop', n] for n in rng.chunks(drain(c), max_parts=rng.choice([1, 3, 10]))] \
+                    + [['pop', 6], ['pop', 1]]
+            yield c
+        # scale: thousands of trials of one stimulus next to single trials of others; many stimuli
+        for it in range(3 if tier == 'quick' else 14):
+            nst = rng.choice([2, 3, 40])
+            c = {'kind': 'scale', 'fs': rng.choice(QC.FS_LIST), 't0': 0}
+            c.update(QC.policy_fields(QC.POLICIES[it % len(QC.POLICIES)] if tier != 'quick' else
+                                      rng.choice(QC.POLICIES), rng, nst))
+            c['stims'] = [{'src': 'arr', 'len': rng.randint(1, 2), 'trials': 1, 'delays': [rng.choice([0, 1])]}
+                          for _ in range(nst)]
+            if nst <= 3:
+                c['stims'][rng.randrange(nst)]['trials'] = rng.choice([2000, 3001])
+            else:
+                c['enc'] = 64
+                for st in c['stims']:
+                    st['trials'] = rng.randint(1, 3)
+            N = drain(c)
+            c['ops'] = [['pop', N // 2], ['pop', N - N // 2], ['pop', 5]]
             yield c
 
     def model_lines(self, c):
@@ -171,6 +198,12 @@ class C03(Spec):
         for s in tr.steps:
             if s['cr'] != sum(req):
                 return f'count_requested_trials() = {s["cr"]}, requested {sum(req)}'
+            if s['reqs'] != req:
+                return f'requested trials per stimulus read {s["reqs"]}, requested {req}'
+        if any(s['n_empty'] for s in tr.steps[:e0]):
+            return '"empty" notification before the queue was empty'
+        if not tr.steps[e0]['n_empty']:
+            return 'is_empty() turned True without an "empty" notification'
         for s in tr.steps[e0 + 1:]:
             if s['add'] or any(x != ('Z',) for x in s['cells']):
                 return f'{s["op"]} on an empty queue produced a trial or non-zero output'
